@@ -571,14 +571,19 @@ def _killed(test, stmts):
     names = {n.id for n in ast.walk(test) if isinstance(n, ast.Name)}
     if not names:
         return False
+
+    def root(e):
+        while isinstance(e, (ast.Attribute, ast.Subscript)):
+            e = e.value
+        return e.id if isinstance(e, ast.Name) else None
     for s in stmts:
         for n in ast.walk(s):
             if isinstance(n, ast.Name) and n.id in names and isinstance(n.ctx, (ast.Store, ast.Del)):
                 return True
-            if isinstance(n, (ast.Subscript, ast.Attribute)) and isinstance(n.ctx, (ast.Store, ast.Del)) and isinstance(n.value, ast.Name) and n.value.id in names:
+            if isinstance(n, (ast.Subscript, ast.Attribute)) and isinstance(n.ctx, (ast.Store, ast.Del)) and root(n) in names:
                 return True
             if isinstance(n, ast.Call):
-                if isinstance(n.func, ast.Attribute) and isinstance(n.func.value, ast.Name) and n.func.value.id in names and n.func.attr in _MUTATORS:
+                if isinstance(n.func, ast.Attribute) and root(n.func.value) in names and n.func.attr in _MUTATORS:
                     return True
                 if not (isinstance(n.func, ast.Name) and n.func.id in _PURE_CALLS):
                     for a in list(n.args) + [k.value for k in n.keywords]:
